@@ -564,7 +564,7 @@ Definition brt_name (d : bytes) (ext : list str) (names : list (str * str))
   do rl <- read_u32 (drop (9 + sl) d);
   if n <? 13 + sl + rl then Err E_UNREC else
   let rgce := take rl (drop (13 + sl) d) in
-  do f <- Ptg.xlsb_parse_formula show_f64 (Ptg.Build_xlsb_env ext (map fst names)) rgce;
+  do f <- Ptg.xlsb_parse_formula show_f64 (Ptg.Build_xlsb_env ext (map fst names) None) rgce;
   Ok (name, f).
 
 (* second loop: BrtExternSheet, BrtName, up to one of the records that follow the names *)
@@ -1234,7 +1234,7 @@ Fixpoint spec_names_xlsb (ext : list str) (before : list str) (l : list (str * P
   match l with
   | [] => []
   | (n, e) :: r =>
-    (n, Ptg.render_xlsb show_f64 (Ptg.Build_xlsb_env ext before) e)
+    (n, Ptg.render_xlsb show_f64 (Ptg.Build_xlsb_env ext before None) e)
     :: spec_names_xlsb ext (before ++ [n]) r
   end.
 
@@ -1242,7 +1242,7 @@ Fixpoint names_wf_xlsb (ext : list str) (before : list str) (l : list (str * Ptg
   match l with
   | [] => true
   | (n, e) :: r =>
-    Ptg.wf_xlsb (Ptg.Build_xlsb_env ext before) e && name_ok n
+    Ptg.wf_xlsb (Ptg.Build_xlsb_env ext before None) e && name_ok n
     && (Utf16.utf16_len n <? 65536)
     && (len (Ptg.encode_xlsb e) <? 268000000)
     && names_wf_xlsb ext (before ++ [n]) r
